@@ -231,6 +231,15 @@ def run(ctx):
         seen.add(s)
         trees.append(t)
     texts = [ka_text(t) for t in trees]
+    # the same exact arithmetic reached through arrays, comprehensions, variables, aggregates
+    _sample = [ka_text(t) for t in trees[n_exh:n_exh + 400:10]] + ["1/2 + 1/3", "10^30/10", "(10^20+1)/2", "0/5", "5/0", "7 % 0", "(-7/2) % 2", "2^10"]
+    C.seam_check(rep, ctx["rundir"], "C01", texts=_sample, wrappers=C.SEAM_WRAPPERS + [C.SEAM_CONDITION],
+                 templates=[("%s ^ 8", ["-2", "-1", "0", "1", "2"]), ("%s ^ 5", ["-2", "-1", "1/2", "2^61"]), ("(%s + 1/3) * 3", ["1", "2/7", "10^20", "-1/3"]),
+                            ("%s / 7", ["7", "14", "1", "0", "-7/2"]), ("abs(%s - 5/2)", ["1", "5/2", "4"]), ("7 %% %s", ["2", "-2", "7/2", "0"]),
+                            ("int(%s)", ["-7/2", "7/2", "-1/3", "5"]), ("round(%s)", ["1/2", "3/2", "-1/2", "5/2"])],
+                 pairs=[("prod({2, 0, 3})", "2*0*3"), ("prod({2/3, 3/2, -5})", "(2/3)*(3/2)*(-5)"), ("sum({1/2, 1/3, -5/6})", "1/2+1/3-5/6"),
+                        ("max({-1, 0, -2})", "0"), ("min({0, 5})", "0"), ("min({5, 0, 7})", "0"), ("max({1/3, 1/2, 0})", "1/2"), ("mean({1, 2, 4})", "7/3"),
+                        ("sum({0, 0, 3})", "3"), ("prod({0})", "0"), ("max({0})", "0"), ("sum({10^20, 1, -(10^20)})", "1")])
     obs = C.run_impl(impl_case, [(ka_text(t), float_twins(t)) for t in trees], ctx["rundir"], limit=20.0)
     model = None
     if ctx["model_ok"]:
